@@ -100,3 +100,44 @@ def reexpress(case, outcome):
     if not ords:
         return None
     return (pc, ("at_indices", list(ords)), force_full, vsel)
+
+
+# ------------------------------------------------------------------------------------------- natives that call back
+def callback_texts():
+    """Natives that run user code (an element's or argument's str(), a comparator, a callback) while they hold values
+    they made themselves: every such value has to survive a collection that starts inside the callback.
+    -> [(name, text)]"""
+    pre = ("class S {\n  init(t) { self.t = t; }\n  str() {\n    let junk = [];\n    for i in 12.times() { junk.push('j${i}' + self.t); }\n"
+           "    return 's-' + self.t;\n  }\n}\n"
+           "fn show(f) { try { print(f()); } catch e { print(e.message); } }\n")
+    shapes = {
+        "assertEq-num-obj": "show(|| assertEq(12345.678, S('a')));",
+        "assertEq-obj-obj": "show(|| assertEq(S('a'), S('b')));",
+        "assertEq-str-obj": "show(|| assertEq('lit' + 'eral', S('b')));",
+        "assertNe-obj-obj": "let o = S('a');\nshow(|| assertNe(o, o));",
+        "assertNe-num": "show(|| assertNe(1.5, 1.5));",
+        "print-many": "print(1.25, S('a'), 2.5, S('b'), [S('c')], 3.75);",
+        "interpolation": "print('${1.25} ${S('a')} ${2.5} ${S('b')} ${[S('c'), 4.5]} ${(S('d'), 5.5)} end');",
+        "list-str": "print([1.5, S('a'), 2.5, S('b'), [S('c')], { 'k': S('d') }].str());",
+        "tuple-str": "print((1.5, S('a'), 2.5, S('b')).str());",
+        "map-str": "let m = { 1.5: S('a') };\nprint(m.str());",
+        "map-key-str": "let m = {};\nm[S('k')] = 7.5;\nprint(m.str().len());",
+        "concat-of-strs": "print(S('a').str() + 1.5.str() + S('b').str() + 2.5.str());",
+        "error-message-from-str": "show(|| { raise Error(S('a').str() + 1.5.str()); });",
+        "sort-with-allocating-comparator": "print([3.5, 1.5, 2.5].sort(|a, b| { let j = [a.str(), b.str()]; a - b }));",
+        "reduce-building-strings": "print([1.5, 2.5, 3.5].iter().reduce('', |a, x| a + x.str() + S('r').str()));",
+        "split-map-collect": "print('a,b,c'.split(',').map(|p| p + S('x').str()).into(List.collect));",
+    }
+    return [(n, pre + t + "\nprint('end');\n") for n, t in sorted(shapes.items())]
+
+
+def extra(tier, ctx):
+    out = []
+    for name, text in callback_texts():
+        for vsel, force_full in ((0, False), (2, True)):
+            o = run_case((("text", "callback-shape", text), ("every_alloc",), force_full, vsel), ctx)
+            o.nontrivial = True
+            o.labels = list(o.labels) + ["callback-shape"]
+            o.sample = "callback shape " + name
+            out.append(o)
+    return out
